@@ -253,6 +253,7 @@ pub fn on_server_message(sim: &mut Sim, c: usize, ch: usize, bytes: &[u8], id: u
             stamp: m.tick,
             delivered: false,
             dropped: false,
+            due_u: None,
         });
         if already > 0 {
             sim.violate("C05", "event_sent_twice", format!("event {kind:?} seq {} was put on the wire for client {c} {} times", m.seq, already + 1));
@@ -615,6 +616,7 @@ pub fn after_client_frame(sim: &mut Sim, c: usize) {
     let mut f20_hits = 0u64;
     let mut conf_commit: Option<(BTreeMap<u64, BTreeSet<u32>>, BTreeSet<u64>, BTreeMap<u64, Vec<(u32, u32)>>)> = None;
     let mut sim_probe_old = 0u64;
+    let mut lost_track = 0u64;
     let sid = sim.clients[c].sess.as_ref().unwrap().id;
     let authorized = sim.clients[c].sess.as_ref().unwrap().authorized;
     let _ = authorized;
@@ -639,6 +641,17 @@ pub fn after_client_frame(sim: &mut Sim, c: usize) {
         }
     }
 
+    {
+        let sess = sim.clients[c].sess.as_mut().unwrap();
+        let applied_any = sess.upd_delivered > 0;
+        for list in sess.sev_sent.values_mut() {
+            for e in list.iter_mut() {
+                if e.delivered && e.due_u.is_none() && e.stamp.map(|s| s <= u && (applied_any || s == 0)).unwrap_or(true) {
+                    e.due_u = Some(u);
+                }
+            }
+        }
+    }
     let sess = sim.clients[c].sess.as_ref().unwrap();
     // ---- C03: structure equals the server's at the reported update tick
     if u < sess.last_u {
@@ -843,7 +856,8 @@ pub fn after_client_frame(sim: &mut Sim, c: usize) {
         let mut should_fire: BTreeSet<u32> = BTreeSet::new();
         for (t, n_new) in &expect {
             let total = sess.muts.values().filter(|m| m.tick == *t && m.applied).count();
-            let count = sess.muts.values().find(|m| m.tick == *t).and_then(|m| m.count).unwrap_or(1);
+            // The number of messages the server really sent for this tick (not the count it announced).
+            let count = sess.tick_msgs.get(t).map(|v| v.len()).unwrap_or(1);
             if total == count && *n_new > 0 {
                 should_fire.insert(*t);
             }
@@ -863,6 +877,26 @@ pub fn after_client_frame(sim: &mut Sim, c: usize) {
         for t in &fired_set {
             if !should_fire.contains(t) {
                 v.push(("C12", "tick_notification_spurious", format!("client {c}: MutateTickReceived fired for tick {t} which did not complete in this frame")));
+            }
+        }
+        // The global tracker answers like the set of completely applied ticks.
+        if let Some(tr) = sim.clients[c].app.world().get_resource::<bevy_replicon::client::server_mutate_ticks::ServerMutateTicks>() {
+            let last = tr.last_tick().get();
+            if newest == last && !sess.tick0 {
+                for d in 0..64u32 {
+                    if d > last {
+                        break;
+                    }
+                    let t = last - d;
+                    let sent = sess.tick_msgs.get(&t).map(|v| v.len()).unwrap_or(0);
+                    let applied = sess.muts.values().filter(|m| m.tick == t && m.applied).count();
+                    let expect = sent > 0 && applied == sent;
+                    let got = tr.contains(RepliconTick::new(t));
+                    if got != expect {
+                        v.push(("C12", "tracker_contains", format!("client {c}: ServerMutateTicks::contains({t}) = {got}, but {applied} of the {sent} mutate messages of that tick are applied (tracker last tick {last})")));
+                        break;
+                    }
+                }
             }
         }
     } else if !mtr.is_empty() {
@@ -923,7 +957,12 @@ pub fn after_client_frame(sim: &mut Sim, c: usize) {
             let Some(set) = conf.get(se) else { continue };
             let Some(h) = w.get::<bevy_replicon::client::confirm_history::ConfirmHistory>(Entity::from_bits(*cc)) else { continue };
             if set.iter().next_back() != Some(lt) {
-                // The model lost track (e.g. tick-0 ambiguity): do not judge this entity.
+                if sess.tick0 && !sim.no_taint {
+                    // Tick-0 ambiguity (known finding F20): the model cannot tell what was applied.
+                    lost_track += 1;
+                    continue;
+                }
+                v.push(("C12", "entity_confirmed_tick", format!("client {c}: entity {se:#x} reports confirmed tick {lt}, the newest message applied to it has tick {:?}", set.iter().next_back())));
                 continue;
             }
             for d in 0..=70u32 {
@@ -1060,6 +1099,9 @@ pub fn after_client_frame(sim: &mut Sim, c: usize) {
         }
     }
 
+    if lost_track > 0 {
+        *sim.stats.probes.entry("history_model_lost_track_tick0".into()).or_insert(0) += lost_track;
+    }
     if sim_probe_old > 0 {
         *sim.stats.probes.entry("old_mutation_written_through_marker".into()).or_insert(0) += sim_probe_old;
     }
@@ -1118,11 +1160,10 @@ pub fn after_heal_round(sim: &mut Sim, round: u32, rounds: u32) {
             let msgs = s.tick_msgs.get(&t).map(|v| v.len()).unwrap_or(0);
             let empty = s.tick_msgs.get(&t).map(|v| v.iter().all(|i| s.muts[i].ents.is_empty())).unwrap_or(true);
             let upd = s.upd_sent.last().map(|(x, _)| *x) == Some(t);
-            if msgs != 1 || !empty || upd {
-                let p_pending = !s.p_taint.is_empty();
-                if !p_pending {
-                    sim.violate("C11", "idle_not_silent", format!("quiescence round {round}: with tracking client {c} must get exactly one empty mutate message per tick, got {msgs} (empty={empty}, update={upd})"));
-                }
+            // With tracking the per-tick message may be sent, but it must not carry any data.
+            let _ = msgs;
+            if !empty || upd {
+                sim.violate("C11", "idle_not_silent", format!("quiescence round {round}: nothing changed and everything is acknowledged, but client {c} was sent replication data at tick {t} (mutate messages empty={empty}, update message={upd})"));
             }
         } else if n != 0 {
             // A periodic component stuck behind the known finding F4 legitimately keeps the entity dirty? No:
@@ -1275,8 +1316,11 @@ pub fn end_of_run(sim: &mut Sim) {
                 let dropped = sess.sev_sent.get(&e.seq).map(|l| l.iter().all(|s| s.dropped)).unwrap_or(false);
                 // An event whose reference cannot be resolved on this client is withheld by design:
                 // require the target to be replicated to the client from the flush tick onwards.
-                let resolvable = match (e.target, e.flush_tick) {
-                    (Some(t), Some(f)) => sim.snaps.range(f..).all(|(_, s)| s.vis[c].as_ref().map(|v| v.contains(&t)).unwrap_or(false)),
+                // The client resolves the reference in the frame in which the event became due; at that
+                // moment it holds what the server had replicated to it at its update tick.
+                let due = sess.sev_sent.get(&e.seq).and_then(|l| l.iter().find_map(|s| s.due_u));
+                let resolvable = match (e.target, due) {
+                    (Some(t), Some(u)) => sess.upd_delivered > 0 && sim.snaps.get(&u).map(|s| s.vis[c].as_ref().map(|v| v.contains(&t)).unwrap_or(false)).unwrap_or(false),
                     (Some(_), None) => false,
                     (None, _) => true,
                 };
